@@ -21,10 +21,11 @@ RULE = ("random (grammar | PDA) x (regex | DFA | NFA | epsilon-NFA, also determi
 EXPLANATION = "Exact oracles on operands and result for all words up to a bound."
 
 REGEXES = ["a", "a*", "(a|b)*", "a b", "(a b)*", "a* b*", "$", "", "b (a|b)*", "(a|b) (a|b)", "a|$", "c*", "(a|c)*"]
+SMALL_REGEXES = ["a", "a*", "(a|b)*", "a b", "$", "", "a|$", "c*"]
 
 
 def generate(ctx):
-    n = 300 if ctx.tier == "quick" else 4000
+    n = 420 if ctx.tier == "quick" else 4000
     rng = ctx.rng
     cases = []
     for i in range(n):
@@ -35,16 +36,17 @@ def generate(ctx):
             c["g"] = cfglib.rand_cfg(rng, max_vars=3, max_prods=5, max_body=3)
             terms = c["g"]["terms"]
         else:
-            p = pdalib.rand_pda(rng, max_states=2, max_stack=2, max_trans=5)
+            p = pdalib.rand_pda(rng, max_states=2, max_stack=2, max_trans=4 if ctx.tier == "quick" else 5,
+                                profile="falike" if rng.random() < 0.5 else None)
             c["p"] = p
             c["g"] = {"profile": "pda:" + p["profile"], "prods": [], "terms": p["inputs"]}
             terms = p["inputs"]
         if kind == "regex":
-            c["regex"] = rng.choice(REGEXES)
+            c["regex"] = rng.choice(SMALL_REGEXES if (left == "pda" and ctx.tier == "quick") else REGEXES)
         elif kind != "other":
-            fa = falib.rand_fa(rng, kind=kind, names="plain", max_states=3, max_syms=2,
+            fa = falib.rand_fa(rng, kind=kind, names="plain", max_states=(2 if (left == "pda" and ctx.tier == "quick") else 3), max_syms=2,
                                profile="multi" if (kind != "dfa" and rng.random() < 0.5) else None)
-            if kind != "dfa" and rng.random() < 0.35 and len(fa["states"]) >= 2:
+            if kind != "dfa" and rng.random() < (0.6 if left == "pda" else 0.35) and len(fa["states"]) >= 2:
                 fa = dict(fa, starts=fa["states"][:2])
             if rng.random() < 0.3 and kind != "dfa":      # deterministic-shaped non-DFA
                 fa2 = falib.rand_fa(rng, kind="dfa", names="plain", max_states=3, max_syms=2)
@@ -83,7 +85,10 @@ def _words(case, extra_syms):
         if falib.vkey(s) not in set(map(falib.vkey, terms)):
             terms.append(s)
     terms = terms[:3]
-    return cfglib.words_upto(terms, {1: 4, 2: 3}.get(len(terms), 2) + (1 if case["maxlen"] > 3 else 0))
+    k = {1: 4, 2: 3}.get(len(terms), 2) + (1 if case["maxlen"] > 3 else 0)
+    if case["op"] == "pda_inter" and case["maxlen"] <= 3:
+        k = min(k, 3 if len(terms) <= 2 else 2)
+    return cfglib.words_upto(terms, k)
 
 
 class _Ext:
